@@ -1,8 +1,8 @@
 (* C20 — every routine terminates and fails loudly on invalid use: the theorems.
    Statements only; proofs are in ProofsGuard / ProofsLoud / ProofsOk / ProofsTerm / ProofsRefuted. *)
-From Coq Require Import ZArith List Bool QArith.
+From Coq Require Import ZArith List Bool QArith Lia.
 From ADV Require Import Base.Num C20.Model C20.Spec C20.ProofsGuard C20.ProofsLoud C20.ProofsOk
-                        C20.ProofsTerm C20.ProofsRefuted.
+                        C20.ProofsTerm C20.ProofsRefuted C20.ModelSvd C20.ProofsSvd C20.ProofsView.
 Import ListNotations.
 Open Scope Z_scope.
 
@@ -146,3 +146,88 @@ Proof. exact retry_nonterminating. Qed.
 Example retry_exits_when_accepted_instance :
   uncapped (retry_step (fun s : nat => Nat.eqb s 3) S) 10%nat 0%nat 0%nat = Done 3%nat 4%nat.
 Proof. reflexivity. Qed.
+
+(* ================================================================== round 2 *)
+
+(* 7. index() accepts an index pair EXACTLY when it lies inside the view (for every well-formed
+      view: any nesting of Slice and T of any parent); an accepted pair addresses the view's own
+      window of the parent storage; At / Swap / SwapRows / SwapColumns with an index outside the
+      view — inside the parent's storage or not — fail loudly and nothing is written, so the
+      parent is unchanged.  The tie executes the out-of-view stream for each of the nine
+      element-type instantiations of /repo separately. *)
+Theorem index_guard_exact : forall m i j, mwf m ->
+  (macc m i j = KOk <-> in_view m i j) /\ (~ in_view m i j -> macc m i j = KPanic) /\
+  (macc m i j = KOk -> roff m <= roff m + i < roff m + rows m /\ coff m <= coff m + j < coff m + cols m).
+Proof.
+  intros m i j W. split; [exact (macc_exact m i j W)|]. split; [exact (macc_outside m i j)|].
+  exact (accepted_index_inside_window m i j W).
+Qed.
+Theorem out_of_view_access_is_loud : forall m i j, mwf m -> ~ in_view m i j ->
+  (kind_of (MAt m i j) = KPanic /\ written (MAt m i j) = false) /\
+  (forall i2 j2, kind_of (MSwap m i j i2 j2) <> KOk /\ written (MSwap m i j i2 j2) = false) /\
+  (forall i1 j1, kind_of (MSwap m i1 j1 i j) <> KOk /\ written (MSwap m i1 j1 i j) = false).
+Proof.
+  intros m i j W N. split; [exact (at_outside_view_loud m i j W N)|]. split.
+  - intros i2 j2. apply swap_outside_view_loud; [exact W|left; exact N].
+  - intros i1 j1. apply swap_outside_view_loud; [exact W|right; exact N].
+Qed.
+Theorem out_of_view_row_swap_is_loud : forall m i j, mwf m -> rows m = cols m -> 0 < rows m ->
+  ~ (0 <= i < rows m /\ 0 <= j < rows m) ->
+  kind_of (MSwapRows m i j) <> KOk /\ written (MSwapRows m i j) = false /\
+  kind_of (MSwapCols m i j) <> KOk /\ written (MSwapCols m i j) = false.
+Proof. exact swaprows_outside_view_loud. Qed.
+(* non-trivial instance: a proper 2x3 view of a 4x5 parent; (0,3) is outside the view but addresses
+   the parent element (1,4) — index() refuses it *)
+Example out_of_view_instance :
+  let v := mslice (mnew Dense 20 4 5) 1 3 1 4 in
+  mwf v /\ ~ in_view v 0 3 /\ inb (mindex v 0 3) (mlen v) = true /\ macc v 0 3 = KPanic /\
+  kind_of (MSwap v 0 3 0 0) = KPanic /\ written (MSwap v 0 3 0 0) = false.
+Proof.
+  cbv zeta. split; [unfold mwf; cbn; lia|]. split; [unfold in_view; cbn; lia|]. vm_compute. repeat split.
+Qed.
+
+(* 8. svd.golubKahanSVD, one pass of the coded outer loop (ModelSvd.svd_pass: threshold, splitMatrix,
+      the zero-diagonal scan `for k := p; k < n-q-1; k++`, Golub-Kahan step iff nothing was found),
+      for EVERY matrix state and every numerical body: an exactly-zero diagonal entry at ANY
+      position of the active block but its last one cannot be skipped — the pass calls zeroRow,
+      first on the least such position and in the unmodified state, and takes no Golub-Kahan step. *)
+Theorem svd_zero_diagonal_not_skipped :
+  forall (St : Type) diag_zero zero_row gk_step threshold split n (s : St) q0 p q k0,
+  split (threshold s) q0 = (p, q) -> q < n - 1 ->
+  p <= k0 < n - q - 1 -> diag_zero (threshold s) k0 = true ->
+  exists k1 s' rest, p <= k1 <= k0 /\ diag_zero (threshold s) k1 = true /\
+    svd_pass St diag_zero zero_row gk_step threshold split n (s, q0) = (s', q, EvZeroRow k1 :: rest) /\
+    (forall a b, ~ In (EvGKStep a b) (EvZeroRow k1 :: rest)).
+Proof. exact pass_zero_not_last. Qed.
+Theorem svd_scan_calls_zero_row_on_first_zero :
+  forall (St : Type) (diag_zero : St -> Z -> bool) zero_row p hi s k0,
+  p <= k0 < hi -> diag_zero s k0 = true -> (forall j, p <= j < k0 -> diag_zero s j = false) ->
+  exists s' later,
+    svd_scan_block St diag_zero zero_row p hi s = (s', false, later ++ [k0]) /\
+    svd_scan St diag_zero zero_row (Z.to_nat (hi - k0 - 1)) (k0 + 1) (zero_row s k0) false [k0]
+      = (s', false, later ++ [k0]).
+Proof. exact scan_first_zero. Qed.
+(* the LAST position of the active block is deliberately outside the scan: if the only exact zero sits
+   there, the pass takes the Golub-Kahan step on that block (mechanism of F-SVD-ZERODIAG-HANG; whether
+   the iteration then converges is a floating-point question this technique does not decide) *)
+Theorem svd_zero_last_diagonal_unhandled_refuted :
+  forall (St : Type) diag_zero zero_row gk_step threshold split n (s : St) q0 p q,
+  split (threshold s) q0 = (p, q) -> q < n - 1 ->
+  (forall j, p <= j < n - q - 1 -> diag_zero (threshold s) j = false) ->
+  svd_pass St diag_zero zero_row gk_step threshold split n (s, q0)
+    = (gk_step (threshold s) p q, q, [EvGKStep p q]).
+Proof. exact pass_zero_last_only. Qed.
+(* the bound is tight: one less (k < n-q-2) and an exact zero at the second-to-last position is skipped *)
+Theorem svd_scan_bound_is_tight :
+  forall (St : Type) diag_zero zero_row gk_step threshold split n (s : St) q0 p q,
+  split (threshold s) q0 = (p, q) -> q < n - 1 ->
+  (forall j, p <= j < n - q - 2 -> diag_zero (threshold s) j = false) ->
+  svd_pass_with St diag_zero zero_row gk_step threshold split (fun n q => n - q - 2) n (s, q0)
+    = (gk_step (threshold s) p q, q, [EvGKStep p q]).
+Proof. exact pass_short_bound_skips. Qed.
+Example svd_pass_instances :
+  svd_pass (list bool) flags_zero flags_zero_row (fun s _ _ => s) (fun s => s) (fun _ q => (0, q)) 4
+           ([false; false; true; false], 0) = ([false; false; false; false], 0, [EvZeroRow 2]) /\
+  svd_pass (list bool) flags_zero flags_zero_row (fun s _ _ => s) (fun s => s) (fun _ q => (0, q)) 4
+           ([false; false; false; true], 0) = ([false; false; false; true], 0, [EvGKStep 0 0]).
+Proof. split; reflexivity. Qed.
